@@ -45,14 +45,12 @@ impl Ord for Tr { fn cmp(&self, o: &Self) -> core::cmp::Ordering { self.0.cmp(&o
 
 /// after everything has been dropped: exactly the first `n` ids were built, each dropped once
 fn ledger_balanced(n: usize) {
-	unsafe {
-		let mut i = 0;
-		while i < MAXID {
-			assert!(BUILT[i] == DROPPED[i], "leak or double drop: constructed and dropped counts differ");
-			assert!(BUILT[i] == (i < n) as u8, "number of constructed elements differs from the failure position");
-			i += 1;
-		}
-	}
+	// loop-free (MAXID = 8) so that harness unwind bounds need not cover it
+	macro_rules! chk { ($($i:literal)*) => { $( unsafe {
+		assert!(BUILT[$i] == DROPPED[$i], "leak or double drop: constructed and dropped counts differ");
+		assert!(BUILT[$i] == ($i < n) as u8, "number of constructed elements differs from the failure position");
+	} )* } }
+	chk!(0 1 2 3 4 5 6 7);
 }
 fn min(a: usize, b: usize) -> usize { if a < b { a } else { b } }
 
@@ -171,8 +169,8 @@ fn h_drop_fixed<C: Decode, const N: usize, const LEN: usize>(c: u32, f: usize, p
 #[kani::proof] #[kani::unwind(6)] pub fn c10q_list_2_fail1() { h_drop_fixed::<LinkedList<Tr>, 2, 2>(2, 1, 1) }
 #[kani::proof] #[kani::unwind(6)] pub fn c10q_list_2_short() { h_drop_fixed::<LinkedList<Tr>, 2, 1>(2, 9, 1) }
 #[kani::proof] #[kani::unwind(6)] pub fn c10t_list_2_fail0() { h_drop_fixed::<LinkedList<Tr>, 2, 2>(2, 0, 1) }
-#[kani::proof] #[kani::unwind(6)] pub fn c10q_map_2_ok() { h_drop_fixed::<BTreeMap<u8, Tr>, 2, 4>(2, 9, 2) }
-#[kani::proof] #[kani::unwind(6)] pub fn c10q_map_2_fail1() { h_drop_fixed::<BTreeMap<u8, Tr>, 2, 4>(2, 1, 2) }
+#[kani::proof] #[kani::unwind(6)] pub fn c10t_map_2_ok() { h_drop_fixed::<BTreeMap<u8, Tr>, 2, 4>(2, 9, 2) }
+#[kani::proof] #[kani::unwind(6)] pub fn c10t_map_2_fail1() { h_drop_fixed::<BTreeMap<u8, Tr>, 2, 4>(2, 1, 2) }
 #[kani::proof] #[kani::unwind(6)] pub fn c10t_map_2_short() { h_drop_fixed::<BTreeMap<u8, Tr>, 2, 3>(2, 9, 2) }
 #[kani::proof] #[kani::unwind(6)] pub fn c10t_map_1_ok() { h_drop_fixed::<BTreeMap<u8, Tr>, 1, 2>(1, 9, 2) }
 #[kani::proof] #[kani::unwind(6)] pub fn c10t_set_2_ok() { h_drop_fixed::<BTreeSet<Tr>, 2, 2>(2, 9, 1) }
